@@ -892,11 +892,39 @@ func c10WritesOf(f *ssa.Function) (out []*c10Write, nlocal int) {
 					if p, ok := rt.(*types.Pointer); ok {
 						rt = p.Elem()
 					}
+					if nt, ok := rt.(*types.Named); ok && nt.Obj().Pkg() != nil && nt.Obj().Pkg().Path() == "sync" && nt.Obj().Name() == "Map" {
+						// a sync.Map is written by these methods (added after seeded change C10-9: a per
+						// call-site cache kept in the compiled Function)
+						switch sc.Name() {
+						case "Store", "LoadOrStore", "LoadAndDelete", "Delete", "Swap", "CompareAndSwap", "CompareAndDelete", "Clear":
+							out = append(out, &c10Write{Fn: f, Instr: in, Addr: cc.Args[0], How: "atomic"})
+						}
+						continue
+					}
 					if nt, ok := rt.(*types.Named); ok && nt.Obj().Pkg() != nil && nt.Obj().Pkg().Path() == "sync/atomic" {
 						n := sc.Name()
 						if n == "Store" || n == "Add" || n == "Swap" || n == "CompareAndSwap" || n == "And" || n == "Or" {
 							out = append(out, &c10Write{Fn: f, Instr: in, Addr: cc.Args[0], How: "atomic"})
 						}
+						continue
+					}
+				}
+				// library functions that reorder or overwrite the slice they are given (added after seeded
+				// change C10-8: UsedVars sorted the compiled globals in place)
+				if sc := cc.StaticCallee(); sc != nil && sc.Pkg != nil && len(cc.Args) > 0 {
+					pk, n := sc.Pkg.Pkg.Path(), sc.Name()
+					if i := strings.IndexByte(n, '['); i >= 0 {
+						n = n[:i] // generic instance
+					}
+					inPlace := pk == "sort" && (n == "Slice" || n == "SliceStable" || n == "Sort" || n == "Stable" || n == "Strings" || n == "Ints" || n == "Float64s") ||
+						pk == "slices" && (strings.HasPrefix(n, "Sort") || n == "Reverse" || n == "Compact" || n == "CompactFunc" || n == "Delete" || n == "DeleteFunc" || n == "Insert" || n == "Replace")
+					if inPlace {
+						arg := cc.Args[0]
+						// sort.Slice takes the slice boxed in an interface
+						if mi, ok := arg.(*ssa.MakeInterface); ok {
+							arg = mi.X
+						}
+						out = append(out, &c10Write{Fn: f, Instr: in, Ref: arg, How: "copy"})
 						continue
 					}
 				}
